@@ -421,4 +421,147 @@ theorem attachedOf_eq (env : InitEnv DT Val) (st : InitState) (sound : AttSound 
     simp only [Option.map_some, Option.some.injEq]
     cases ht'; rfl
 
+/-! ## the fuel of `initMod` is never used up -/
+
+theorem nodup_subset_length : ∀ (l l' : List Name), l.Nodup → (∀ x ∈ l, x ∈ l') → l.length ≤ l'.length := by
+  intro l
+  induction l with
+  | nil => intro l' _ _; simp
+  | cons a l ih =>
+    intro l' hnd hsub
+    simp only [List.nodup_cons] at hnd
+    have ha : a ∈ l' := hsub a List.mem_cons_self
+    have h1 := ih (l'.erase a) hnd.2 (fun x hx => by
+      have hne : x ≠ a := fun he => hnd.1 (he ▸ hx)
+      exact (List.mem_erase_of_ne hne).2 (hsub x (List.mem_cons_of_mem _ hx)))
+    have h2 := List.length_erase_of_mem ha
+    have h3 : 0 < l'.length := List.length_pos_of_mem ha
+    simp only [List.length_cons]
+    omega
+
+theorem mem_names_of_lookup {α : Type} (k : Name) (l : List (Name × α)) (h : (lookup k l).isSome = true) :
+    k ∈ l.map (·.1) := by
+  cases hl : lookup k l with
+  | none => rw [hl] at h; cases h
+  | some v => exact List.mem_map_of_mem (f := (·.1)) (lookup_mem k v l hl)
+
+def NoFuel (st : InitState) : Prop := ∀ e ∈ st.errors, e.2 ≠ InitErr.fuel
+
+theorem checkTarget_nofuel (env : InitEnv DT Val) (m : Name) (d : AttDecl) (t : Name) (st : InitState) (h : NoFuel st) :
+    NoFuel (checkTarget env m d t st).st ∧ (checkTarget env m d t st).err ≠ some .fuel := by
+  unfold checkTarget
+  split
+  · exact ⟨h, by simp⟩
+  · split
+    · exact ⟨h, by simp⟩
+    · exact ⟨h, by simp⟩
+
+theorem resolveStep_nofuel (env : InitEnv DT Val) (initT : InitState → Name → InitState) (stack : List Name) (m : Name)
+    (i : Instance DT Val)
+    (H : ∀ st t, NoFuel st → (lookup t env.node.modules).isSome = true → t ∉ stack → NoFuel (initT st t))
+    (acc : Loop) (d : AttDecl) (h : NoFuel acc.st) (he : acc.err ≠ some .fuel) :
+    NoFuel (resolveStep env initT stack m i acc d).st ∧ (resolveStep env initT stack m i acc d).err ≠ some .fuel := by
+  unfold resolveStep
+  split
+  · exact ⟨h, he⟩
+  · cases attTarget env.nameOf i d with
+    | none => exact ⟨h, he⟩
+    | some t =>
+      simp only
+      split
+      · exact ⟨h, by simp⟩
+      · cases hl : lookup t env.node.modules with
+        | none => exact ⟨h, by simp⟩
+        | some i' =>
+          simp only
+          split
+          · exact checkTarget_nofuel env m d t acc.st h
+          · split
+            · exact ⟨h, by simp⟩
+            · rename_i hc
+              exact checkTarget_nofuel env m d t _ (H acc.st t h (by rw [hl]; rfl) (by simpa using hc))
+
+theorem resolveAll_nofuel (env : InitEnv DT Val) (initT : InitState → Name → InitState) (stack : List Name) (m : Name)
+    (i : Instance DT Val)
+    (H : ∀ st t, NoFuel st → (lookup t env.node.modules).isSome = true → t ∉ stack → NoFuel (initT st t)) :
+    ∀ (ds : List AttDecl) (acc : Loop), NoFuel acc.st → acc.err ≠ some .fuel →
+      NoFuel (ds.foldl (resolveStep env initT stack m i) acc).st ∧
+      (ds.foldl (resolveStep env initT stack m i) acc).err ≠ some .fuel := by
+  intro ds
+  induction ds with
+  | nil => intro acc h he; exact ⟨h, he⟩
+  | cons d ds ih =>
+    intro acc h he
+    simp only [List.foldl_cons]
+    obtain ⟨a, b⟩ := resolveStep_nofuel env initT stack m i H acc d h he
+    exact ih _ a b
+
+theorem finishInit_nofuel (m : Name) (r : Loop) (h : NoFuel r.st) (he : r.err ≠ some .fuel) : NoFuel (finishInit m r) := by
+  unfold finishInit
+  cases hr : r.err with
+  | none => exact h
+  | some e =>
+    intro x hx
+    simp only [List.mem_append, List.mem_singleton] at hx
+    rcases hx with hx | rfl
+    · exact h x hx
+    · intro hf; simp only at hf; rw [hr, hf] at he; exact he rfl
+
+/-- with `stack.length + fuel` above the number of registered modules the fuel is not what ends an initialisation: the
+stack of modules being initialised holds distinct registered modules -/
+theorem initMod_nofuel (env : InitEnv DT Val) : ∀ (fuel : Nat) (stack : List Name) (st : InitState) (m : Name),
+    NoFuel st → stack.Nodup → (∀ x ∈ stack, (lookup x env.node.modules).isSome = true) → m ∉ stack →
+    (lookup m env.node.modules).isSome = true → env.node.modules.length + 1 ≤ stack.length + fuel →
+    NoFuel (initMod env fuel stack st m) := by
+  intro fuel
+  induction fuel with
+  | zero =>
+    intro stack st m _ hnd hreg hm hmr hlen
+    exfalso
+    have := nodup_subset_length (m :: stack) (env.node.modules.map (·.1)) (List.nodup_cons.2 ⟨hm, hnd⟩) (fun x hx => by
+      rcases List.mem_cons.1 hx with rfl | hx
+      · exact mem_names_of_lookup _ _ hmr
+      · exact mem_names_of_lookup _ _ (hreg x hx))
+    simp only [List.length_cons, List.length_map] at this
+    omega
+  | succ fuel ih =>
+    intro stack st m h hnd hreg hm hmr hlen
+    simp only [initMod]
+    cases hi : lookup m env.node.modules with
+    | none => exact h
+    | some i =>
+      cases hmd : declOf env m with
+      | none => exact h
+      | some md =>
+        simp only
+        have H : ∀ st' t, NoFuel st' → (lookup t env.node.modules).isSome = true → t ∉ (m :: stack) →
+            NoFuel (initMod env fuel (m :: stack) st' t) := by
+          intro st' t h' ht hnot
+          apply ih (m :: stack) st' t h' (List.nodup_cons.2 ⟨hm, hnd⟩) _ hnot ht
+          · simp only [List.length_cons]; omega
+          · intro x hx
+            rcases List.mem_cons.1 hx with rfl | hx
+            · exact hmr
+            · exact hreg x hx
+        obtain ⟨a, b⟩ := resolveAll_nofuel env _ (m :: stack) m i H md.attached ⟨st, none⟩ h (by simp)
+        exact finishInit_nofuel m _ a b
+
+/-- `create_modules`: the bound on the depth of `get_module` calls built into the model is never reached -/
+theorem initNode_nofuel (env : InitEnv DT Val) : NoFuel (initNode env) := by
+  have key : ∀ (l : List (Name × Instance DT Val)) (st : InitState), NoFuel st →
+      (∀ kv ∈ l, (lookup kv.1 env.node.modules).isSome = true) → NoFuel (l.foldl (initTop env) st) := by
+    intro l
+    induction l with
+    | nil => intro st h _; exact h
+    | cons x l ih =>
+      intro st h hreg
+      simp only [List.foldl_cons]
+      apply ih _ _ (fun kv hkv => hreg kv (List.mem_cons_of_mem _ hkv))
+      unfold initTop
+      split
+      · exact h
+      · exact initMod_nofuel env _ [] st x.1 h List.nodup_nil (fun _ hx => by cases hx) (by simp)
+          (hreg x List.mem_cons_self) (by simp)
+  exact key _ _ (fun e he => by cases he) (fun kv hkv => lookup_isSome_of_mem kv.1 kv.2 _ hkv)
+
 end Frappy.Lemmas.ConfigAttach
